@@ -10,5 +10,15 @@ LEVEL = "other"
 THRESHOLDS = {("rot", 4, "double"): (0.25, 2.2), ("rot", 8, "double"): (0.16, 1.4), ("rot", 12, "double"): (0.07, 1.0), ("rot", 8, "float"): (0.16, 1.4)}
 
 
+XCFGS = [("rot", 8, "double", 0), ("rot", 8, "double", 1)]
+
+
 def run(rep, tier, seed, replay, proof_ok, proof_msg):
+    from props import numvar
+    if replay and any(ln.startswith("# xcfg=") for ln in open(replay)):
+        numvar.run_variants(rep, tier, seed, XCFGS, THRESHOLDS, "C04", "rotation kernel", replay=replay)
+        return
+    if not replay:
+        # the periodic (four-step sequence with the top tree) and the target/source variants against explicit image sums
+        numvar.run_variants(rep, tier, seed, XCFGS, THRESHOLDS, "C04", "rotation kernel")
     numfam.run_family(rep, tier, seed, replay, proof_ok, proof_msg, num.ROT, THRESHOLDS, "C04", "rotation kernel")
